@@ -428,6 +428,13 @@ def run(ctx: Ctx, rep: Report, tier: str) -> None:
     sub.rule("R09.2")
     protocol_reader_writer(ctx, sub)
     rep.absorb(sub, "R02.11")
+    # R02.12 what an object derived from its platform (a name table object, a snapshot of its settings) is derived again
+    # when the platform changes (C17 R17.6)
+    from .c17 import derived_attributes_refreshed
+
+    sub = Report("C02")
+    derived_attributes_refreshed(ctx, sub)
+    rep.absorb(sub, "R02.12")
     r02_3(ctx, rep)
     # R02.4 writer keywords belong to the target platform's reader; R02.6 re-typing tests
     from .c01 import classification_guards
